@@ -23,14 +23,18 @@ func (s *verifTSStore) GetTimestampWithRetry(bo *retry.Backoffer, scope string) 
 	return s.script()
 }
 
-// VerifCommitWait returns (ts, error, isCommitTSLagError, number of GetTimestampWithRetry calls).
-func VerifCommitWait(script func() (uint64, error), waitUntil uint64, timeout time.Duration) (uint64, error, bool, int) {
+// VerifCommitWait registers regs one after the other with SetCommitWaitUntilTSO and runs GetTimestampForCommit.
+// It returns (ts, error, isCommitTSLagError, number of GetTimestampWithRetry calls, constraint in effect).
+func VerifCommitWait(script func() (uint64, error), regs []uint64, timeout time.Duration) (uint64, error, bool, int, uint64) {
 	st := &verifTSStore{script: script}
 	txn := &KVTxn{store: st}
 	txn.commitWaitUntilTSOTimeout = time.Second
-	txn.SetCommitWaitUntilTSO(waitUntil)
+	for _, r := range regs {
+		txn.SetCommitWaitUntilTSO(r)
+	}
 	txn.SetCommitWaitUntilTSOTimeout(timeout)
+	eff := txn.GetCommitWaitUntilTSO()
 	bo := retry.NewBackofferWithVars(context.Background(), 1000, nil)
 	ts, err := txn.GetTimestampForCommit(bo, "global")
-	return ts, err, err != nil && tikverr.IsErrorCommitTSLag(err), st.calls
+	return ts, err, err != nil && tikverr.IsErrorCommitTSLag(err), st.calls, eff
 }
